@@ -8,6 +8,8 @@ spec/C05/Sb31Gen.tla      GEN: TLC enumerates / simulates abstract cases (config
 spec/C05/Sb31CfgGen.tla   GEN: the same for the CONFIGURATION entry point (SecureBinary31.load_from_config): how a configuration expresses the
                           part-common key, the signing keys, the certificate block, numbers and every command kind (harness/c05_cfg.py renders)
 spec/C05/Sb31Obj.tla      I-spec of one SecureBinary31 object exported repeatedly (as built / intended) + history GEN
+spec/C05/Sb31Own.tla      ownership of the command LIST handed to set_commands: GEN of call histories (hand-over, the caller touches its list, a second
+                          container, add / insert, export) with the supplied content per export; MC: snapshot holds, alias refuted
 spec/C05/Sb31RomTrace.tla TV : batch trace validation of the executor's events against Sb31Rom
 
 Key pool (keys/sb31, read only): every slot (root0..root3, isk) x curve holds one key of every VALUE CLASS of Sb31Format!KeyClasses -
@@ -296,6 +298,8 @@ def build(c):
 
 def plan_of(case):
     """Abstract case -> concrete plan {conc, ops}; deterministic in (VERIF_SEED, case)."""
+    if "own" in case:
+        return own_plan(case)
     r = rng(PROP, "case", *rng_key(case))
     if "k" in case:
         return {"case": case, "conc": cfgl.concretise(case, r), "ops": [{"op": op} for op in case["hist"]]}
@@ -314,6 +318,8 @@ def plan_of(case):
 def execute(plan, tid, keep_bytes=False):
     """Run a plan on the real code: build the object, replay its history, run the executor on every exported file.
     Returns the list of traces (one per Export)."""
+    if "own" in plan:
+        return execute_own(plan, tid, keep_bytes)
     case, c = plan["case"], json.loads(json.dumps(plan["conc"]))
     try:
         sb = build(c)
@@ -348,6 +354,73 @@ def execute(plan, tid, keep_bytes=False):
             t["file"] = data
         out.append(t)
     return out
+
+
+# ------------------------------------------------------------------ ownership of the command LIST (Sb31Own)
+def own_plan(case):
+    """Case with a history of Sb31Own (case["own"]) -> plan: the configuration concretised, one concrete command per command id."""
+    r = rng(PROP, "own", json.dumps(case, sort_keys=True))
+    c = concretise(dict({k: v for k, v in case.items() if k != "own"}, cmds=[]), r)
+    n = 2 + len(case["own"])
+    cm = {str(i): conc_cmd({"t": r.choice(list(CMD_NAMES)), "dl": r.choice([0, 3, 16, 100, 240, 256, 300])}, r) for i in range(1, n + 1)}
+    return {"case": case, "conc": c, "own": case["own"], "ownc": cm}
+
+
+def execute_own(plan, tid, keep_bytes=False):
+    """Replay a history of Sb31Own: ONE Python list of the caller, two containers of the same configuration; Hand = set_commands(the list),
+    Touch = the caller changes ITS list, Add = add_command / insert_command(0, .) on a container.  What an export is compared with
+    (inp.cmds) is the `expect` the spec printed with the history, concretised - nothing is computed here."""
+    case, c, cm = plan["case"], json.loads(json.dumps(plan["conc"])), plan["ownc"]
+    c["cmds"] = []
+    try:
+        sbs = [build(c), build(c)]
+    except Exception as e:  # noqa: BLE001
+        return [{"id": f"{tid}.1", "plan": plan, "case": case, "k": 1, "inp": spec_inp(c),
+                 "ev": [{"ev": "BuilderRefused", "exc": type(e).__name__, "msg": str(e)[:200]}]}]
+    lst = [real_cmd(cm["1"]), real_cmd(cm["2"])]   # Sb31Own!Init
+    out, k = [], 0
+    for a in plan["own"]:
+        if a["a"] == "Hand":
+            sbs[a["c"] - 1].sb_commands.set_commands(lst)
+        elif a["a"] == "Touch":
+            if a["kind"] == "append":
+                lst.append(real_cmd(cm[str(a["id"])]))
+            elif a["kind"] == "insert":
+                lst.insert(0, real_cmd(cm[str(a["id"])]))
+            elif a["kind"] == "clear":
+                lst.clear()
+            elif a["kind"] == "pop":
+                if lst:
+                    lst.pop()
+            else:
+                raise Machinery(f"no touch {a}")
+        elif a["a"] == "Add":
+            if a["where"] == "end":
+                sbs[a["c"] - 1].sb_commands.add_command(real_cmd(cm[str(a["id"])]))
+            else:
+                sbs[a["c"] - 1].sb_commands.insert_command(0, real_cmd(cm[str(a["id"])]))
+        elif a["a"] == "Export":
+            k += 1
+            cc = dict(c, cmds=[cm[str(i)] for i in a["expect"]])
+            t = {"id": f"{tid}.{k}", "plan": plan, "case": case, "k": k, "inp": spec_inp(cc), "rom": rom_env(c)}
+            try:
+                data = sbs[a["c"] - 1].export()
+            except Exception as e:  # noqa: BLE001
+                t["ev"] = [{"ev": "ExportRefused", "exc": type(e).__name__, "msg": str(e)[:200]}]
+                out.append(t)
+                break
+            t["ev"] = rom.run(data, t["rom"])
+            t["len"] = len(data)
+            if keep_bytes or t["ev"][-1]["ev"] != "Accept":
+                t["file"] = data
+            out.append(t)
+        else:
+            raise Machinery(f"no call {a}")
+    return out
+
+
+def own_text(case):
+    return " ; ".join(a["a"] + "".join(f" {k}={a[k]}" for k in ("c", "kind", "where", "expect") if k in a) for a in case["own"])
 
 
 def observe(case, tid, keep_bytes=False):
@@ -430,6 +503,8 @@ def clause_with_supply(t, matched):
 def finding_key(t, matched):
     if "k" in t["case"]:  # configuration lane
         cls = "config" if t["k"] == 1 else f"config/export#{t['k']}"
+    elif "own" in t["case"]:   # the caller's list handed to set_commands and touched again
+        cls = "own-list"
     else:
         cls = "build" if t["k"] == 1 else f"history/export#{t['k']}"
     return f"C05/{cls}/{clause_with_supply(t, matched)}"
@@ -447,6 +522,9 @@ def describe(t, matched):
     kc = key_classes(c)
     how += (f" [value classes of the keys (leading zero byte in X / Y / both): root set {c.get('rk')}, ISK {c.get('ik') if c['isk'] else '-'}; pool keys "
             f"{roots_of(c)}{' + ' + isk_of(c) if c['isk'] else ''} in keys/sb31/p{c['curve'] * 8}]" if kc else "")
+    if "own" in c:
+        how += (f" [commands handed over as ONE list of the caller (initially 2 commands) to set_commands of two containers of this configuration; calls: {own_text(c)}; "
+                "`expect` = ids of the commands supplied to the exported container (Sb31Own)]")
     sup = supplied_text(c)
     how += (f" [REQUESTED {'encrypted' if c['enc'] else 'PLAIN'} / {'ISK' if c['isk'] else 'no ISK'}; SUPPLIED as well, although not requested: {sup} ("
             + ("containerKeyBlobEncryptionKey / kdkAccessRights of the configuration, ISK keys of a certificate block configuration with useIsk: false" if "k" in c
@@ -654,6 +732,22 @@ def run(tier):
     if None in gfix:
         raise Machinery("case GEN holds no plain container with key material supplied / no encrypted container with ISK material supplied for the history cases")
     hcases += [dict(c, hist=h) for h in hists for c in (gfix if quick else gfix + gcfgs[:40])]
+    # ---- ownership of the command list (Sb31Own): every history of calls after set_commands(list) - the caller touches its list, hands it to a
+    #      second container, a container is given more commands - x a rotation of configurations; the alias semantic must be refuted
+    og = tlc.mc("C05", "Sb31Own", "Sb31OwnGen.cfg", require_actions=("DoHand", "DoTouch", "DoAdd", "DoExport"), workers=1, deadlock=False)
+    v.add_mc(og)
+    owns = dedupe(og.json_prints())
+    orf = tlc.run("C05", "Sb31Own", "Sb31OwnRefute.cfg", workers=1, deadlock=False)
+    if orf.violated != "ExportCarriesGiven":
+        raise Machinery(f"Sb31Own with Holds = alias is not refuted ({orf.violated}): the history space does not reach a container that keeps the caller's list")
+    if len(owns) < 300 or not any([a["a"] for a in h["acts"]] == ["Hand", "Hand", "Add", "Export"] for h in owns) \
+            or not any([a["a"] for a in h["acts"]][:2] == ["Hand", "Touch"] for h in owns):
+        raise Machinery(f"ownership GEN produced {len(owns)} histories")
+    ocfg = cfgs[6:6 + (8 if quick else 40)] or cfgs[:1]
+    ocases = [dict({k: x for k, x in ocfg[i % len(ocfg)].items() if k != "cmds"}, cmds=[], own=[{k: x for k, x in a.items() if k != "carried"} for a in h["acts"]])
+              for i, h in enumerate(owns)]
+    hcases += ocases
+    v.extra["own_list"] = {"histories": len(owns), "refuted_with_alias_semantic": orf.violated, "configurations": len(ocfg)}
     say(f"[C05] GEN: {len(tour)} tour cases, {len(sim)} simulated cases, {len(hists)} histories x configurations = {len(hcases)} history cases ({v.timer.s()}s)")
 
     # ---- configuration lane: cases of Sb31CfgGen (tours + simulation), built by SecureBinary31.load_from_config
@@ -867,6 +961,10 @@ def run(tier):
         "material that is supplied but not requested must change nothing (parameter documentation: 'needed if is_encrypted is True'); the class lane hands the key "
         "material to SecureBinary31 (which always passes a timestamp on to SecureBinary31Commands); a SecureBinary31Commands object made by hand and put into a "
         "container is not exercised",
+        "ownership of the command list (Sb31Own): asserted for the LIST handed to set_commands only (what was supplied is its content at the hand-over; the unchanged "
+        "tree takes a copy there); SecureBinary31Commands has no constructor argument for commands; the command OBJECTS in the list and their data buffers are kept by "
+        "reference (CmdLoad stores `self.data = data`) - a caller that modifies a command object or its bytearray after the hand-over is NOT asserted; nor is a caller "
+        "that reads `sb_commands.commands` and modifies it directly",
         "configuration lane: the dictionary is handed to SecureBinary31.load_from_config (what `nxpimage sb31 export` calls after schema validation); YAML reading of the top-level "
         "file, check_config and the command line are not exercised (C19/C20 territory); the rendered configurations were validated against "
         "SecureBinary31.get_validation_schemas at development time (all valid except `call`, which is in sch_sb31.yaml but in no family's supported_commands)",
